@@ -20,8 +20,7 @@ def specRead (d : List Seg) (a : Int) (b : Nat) : String × Nat × Nat :=
   if a < 0 then ("s200", size d, checksum d)
   else
     let a := a.toNat
-    if a > size d then ("e416", 0, 0)
-    else if a = size d then ("s206", 0, 0)     -- a range starting AT the end is outside this property (C32 owns it): code behaviour kept
+    if a ≥ size d then ("e416", 0, 0)     -- a range starting at or beyond the end is unsatisfiable (C32 owns it; parseRange repaired)
     else
       let n := min b (size d - 1) - a + 1
       ("s206", n, checksum (slice d a n))
